@@ -5,6 +5,10 @@ import XmppModel.Model.WaitFor
 import XmppModel.Lemmas.Skeleton
 import XmppModel.Lemmas.ServeLoop
 import XmppModel.Lemmas.WaitFor
+import XmppModel.Model.FormLines
+import XmppModel.Lemmas.FormLines
+import XmppModel.Model.MucHandover
+import XmppModel.Lemmas.MucHandover
 import XmppModel.Generated.C09
 /-!
 # C09 — no peer input can panic or wedge the library
@@ -162,6 +166,31 @@ theorem C09_lock_discipline : lockDisciplineOk XmppModel.Generated.C09.lockFacts
 
 example : lockOk ("xmpp.(*lockWriteCloser).Close", "release-plain", 2) = false := by decide
 example : lockOk ("xmpp.(*Session).Encode", "handoff", 0) = false := by decide
+
+/-! ## Round E: every mutex of the handler packages is released on every path
+
+The same classification as above, run over every package that has wait-for sets (history, ibb,
+muc, receipts): here NO name is consumed, only the kind.  A `Lock()` that some path leaves
+without a matching release (an early `return` between `h.m.Lock()` and `h.m.Unlock()`), a lock
+handed to somebody else, or a release without an acquisition is refused: the next stanza that
+needs the mutex would wedge Serve.  `window` = `X.Unlock(); wait; X.Lock()` inside a region
+whose release is deferred (ibb `Conn.Read`). -/
+
+def handlerLockOk (f : String × String × Nat) : Bool :=
+  f.2.1 == "paired-defer" || f.2.1 == "paired-explicit" || f.2.1 == "window"
+
+def handlerLocksOk : Option (List (String × String × Nat)) → Bool
+  | some l => !l.isEmpty && l.all handlerLockOk &&
+      l.any (fun f => f.2.1 == "paired-defer") && l.any (fun f => f.2.1 == "paired-explicit")
+  | none => false
+
+theorem C09_handler_locks_released_on_every_path :
+    handlerLocksOk XmppModel.Generated.C09.handlerLockFacts = true := by
+  decide +kernel
+
+example : handlerLockOk ("receipts.(*Handler).HandleMessage",
+    "violation:a path leaves receipts.(*Handler).HandleMessage holding h.m (line 190)", 0) = false := by decide
+example : handlerLockOk ("x", "handoff", 0) = false := by decide
 
 /-! ## Goroutines started by the code in scope
 
@@ -438,5 +467,151 @@ open XmppModel.ScramLoop in
 example : serverFirst [114, 61, 97, 98, 44, 105, 61, 49] = .returns := by decide
 open XmppModel.ScramLoop in
 example : serverFirst [1] = .loops := by decide
+
+/-! ## Round E: channel waits of the ROOT package on the serve goroutine (the response slot)
+
+`handleInputStream` hands a response to the request that waits for it and then waits until the
+requester has closed it.  The hand-over must have an alternative exit (the requester's context:
+it ends whenever `sendResp` returns, so a requester that gives up at any moment releases the
+serve loop); the wait behind it is a `handshake`: a receive from the channel the select case has
+just sent on - the requester accepted the response in a rendezvous, so it exists and owes the
+`Close` (an obligation of the helpers, exercised by the watchdog runs; not proved).  The
+operations reachable from `(*Session).Serve` are regenerated with the same classifier as for
+the handler packages; no names consumed.  A plain send / receive with no alternative (the
+check-then-act rewrite `if ctx.Err() == nil { c <- v; <-c }`) is `blocking` and refused: in the
+terms of the wait-for model it is a resource of both sides (`C09_blocking_channel_wait_wedges`). -/
+
+def rootChanKindOk (k : String) : Bool := chanKindOk k || k == "handshake"
+
+def rootServeChanOpsOk : Option (List (String × String)) → Bool
+  | some l => l.any (fun o => o.1 == "send" && o.2 == "escape") &&
+      l.any (fun o => o.1 == "recv" && o.2 == "handshake") && l.all fun o => rootChanKindOk o.2
+  | none => false
+
+/-- Every channel operation the root package can perform on the serve goroutine has an
+alternative exit or is the acknowledged half of a hand-over that had one; the hand-over and its
+handshake were found.  Re-decided on every run. -/
+theorem C09_root_serve_channel_waits_escape :
+    rootServeChanOpsOk XmppModel.Generated.C09.rootServeChanOps = true := by
+  decide +kernel
+
+-- the check-then-act rewrite of the hand-over
+example : rootServeChanOpsOk (some [("recv", "default"), ("send", "blocking"), ("recv", "blocking")]) = false := by decide
+example : rootServeChanOpsOk (some [("send", "escape"), ("recv", "handshake"), ("recv", "escape")]) = true := by decide
+
+/-! ## Round E: the unbounded line-splitting loops of form/form.go (`Submit` of a peer's form)
+
+A form decoded from a peer's reply (muc.GetConfig, a command payload, …) is sent back with
+`Submit`; `(*Data).TokenReader` cuts the peer's instructions and text-multi values into lines
+with `for { idx := strings.IndexAny(…) … }` loops that have no bound of their own.  The model
+(Model/FormLines.lean) keeps that shape (fuel-bounded, `none` = still looping), so "returns
+whatever the reply contains" is a statement that can fail: `C09_form_loop_without_progress_hangs`
+exhibits a loop of the same shape that never returns.  Tie: op `formsubmit` runs the real
+decoder + Submit + encoder under the watchdog on every small form and compares what the
+submission carries with `submitted`. -/
+
+open XmppModel.FormLines in
+/-- The text-multi loop returns for every text (any separator predicate, any lines collected
+so far) within `length + 1` turns, with exactly the pieces between separators. -/
+theorem C09_form_multi_loop_returns {α : Type} (sep : α → Bool) (s : List α) (acc : List (List α)) :
+    multiLoop sep (s.length + 1) s acc = some (acc ++ segments sep s) :=
+  multiLoop_eq sep _ s acc (Nat.lt_succ_self _)
+
+open XmppModel.FormLines in
+/-- More fuel never changes the answer (the bound is not an artefact). -/
+theorem C09_form_multi_loop_fuel_irrelevant {α : Type} (sep : α → Bool) (s : List α) (acc : List (List α))
+    (n : Nat) (h : s.length < n) : multiLoop sep n s acc = multiLoop sep (s.length + 1) s acc := by
+  rw [multiLoop_eq sep n s acc h, multiLoop_eq sep _ s acc (Nat.lt_succ_self _)]
+
+open XmppModel.FormLines in
+/-- The instructions loop returns for every text, with the non-empty pieces. -/
+theorem C09_form_instr_loop_returns {α : Type} (sep : α → Bool) (s : List α) (acc : List (List α)) :
+    instrLoop sep (s.length + 1) s acc = some (acc ++ nonEmpty (segments sep s)) :=
+  instrLoop_eq sep _ s acc (Nat.lt_succ_self _)
+
+open XmppModel.FormLines in
+/-- Hence a submission of ANY form a peer can send is produced: `submitted` is never `none`,
+and it carries the non-empty lines of the instructions and of the joined values. -/
+theorem C09_form_submit_returns (instr values : List Bytes) :
+    submitted instr values = some
+      (nonEmpty (segments isNL (accInstr 10 instr)),
+       if values.isEmpty then [] else nonEmpty (segments isNL (joinNL 10 values))) := by
+  by_cases hv : values.isEmpty = true
+  · simp [submitted, C09_form_instr_loop_returns, hv]
+  · simp [submitted, C09_form_instr_loop_returns, C09_form_multi_loop_returns, hv]
+
+open XmppModel.FormLines in
+/-- No piece contains a separator, their number is the number of separators + 1, and pieces
+plus separators add up to the text: the loop loses and invents nothing. -/
+theorem C09_form_segments_exact {α : Type} (sep : α → Bool) (s : List α) :
+    (∀ l ∈ segments sep s, ∀ b ∈ l, sep b = false) ∧
+    (segments sep s).length = (s.filter sep).length + 1 ∧
+    ((segments sep s).map List.length).sum + (s.filter sep).length = s.length :=
+  ⟨segments_no_sep sep s, segments_length sep s, segments_total sep s⟩
+
+open XmppModel.FormLines in
+/-- The model can express the failure: a loop of the same shape that advances only behind a
+non-empty line never returns on a text that starts with a separator, whatever the fuel. -/
+theorem C09_form_loop_without_progress_hangs {α : Type} (sep : α → Bool) (b : α) (r : List α)
+    (acc : List (List α)) (hb : sep b = true) : ∀ n, stuckLoop sep n (b :: r) acc = none :=
+  fun n => stuckLoop_stuck sep n (b :: r) acc (by simp [indexSep, hb])
+
+-- non-vacuity: "a\n\nb" (an empty <value/> between two values) and CR LF inside a value
+open XmppModel.FormLines in
+example : submitted [] [[97], [], [98, 13, 10, 99]] = some ([], [[97], [98], [99]]) := by decide
+open XmppModel.FormLines in
+example : submitted [[], [97, 10], [], [98]] [] = some ([[97], [98]], []) := by decide
+open XmppModel.FormLines in
+example : multiLoop isNL 5 [97, 10, 10, 98] [] = some [[97], [], [98]] := by decide
+open XmppModel.FormLines in
+example : multiLoop isNL 2 [97, 10, 10, 98] [] = none := by decide  -- too little fuel: still looping
+open XmppModel.FormLines in
+example : stuckLoop isNL 40 [97, 10, 10, 98] [] = none := by decide
+
+/-! ## Round E: the join hand-over loop of muc's presence handler
+
+`(*Client).handlePresence` runs on the serve goroutine with `Client.managedM` held; its
+`selectJoin:` loop (take the pending request out of `Channel.join`, put a foreign one back,
+answer ours, look again when the caller has given up) has no bound of its own.
+Model/MucHandover.lean keeps that shape (fuel-bounded, `none` = still looping; `later` = the
+requests that further Join calls put into the channel while the handler runs).  Tie: op
+`muchand` (the real handler on the one-step domain). -/
+
+open XmppModel.MucHandover in
+/-- The hand-over returns for every content of the channel and every environment, within
+`|later| + 2` turns. -/
+theorem C09_muc_handover_returns (q : Option Req) (later : List Req) :
+    ∃ r, selectJoin (later.length + 2) q later = some r :=
+  selectJoin_returns later q
+
+open XmppModel.MucHandover in
+/-- A pending request for ANOTHER occupant JID (a change of nickname is under way, the presence
+is for the nickname still held) is neither completed nor lost: the presence goes on to the user
+callback and the request is in the channel again, at the first turn. -/
+theorem C09_muc_foreign_request_put_back (n : Nat) (jc : Req) (later : List Req)
+    (h : jc.same = false) : selectJoin (n + 1) (some jc) later = some (.forward, some jc) :=
+  foreign_request_put_back n jc later h
+
+open XmppModel.MucHandover in
+/-- A live request for this occupant JID is completed at the first turn. -/
+theorem C09_muc_own_request_completed (n : Nat) (jc : Req) (later : List Req)
+    (hs : jc.same = true) (hl : jc.live = true) :
+    selectJoin (n + 1) (some jc) later = some (.handed, none) :=
+  own_request_completed n jc later hs hl
+
+open XmppModel.MucHandover in
+/-- The model can express the wedge: with `continue` instead of `break` behind the put-back the
+handler never returns while a request for another nickname is pending, whatever the fuel. -/
+theorem C09_muc_handover_continue_hangs (n : Nat) (jc : Req) (later : List Req)
+    (h : jc.same = false) : selectJoinSpin n (some jc) later = none :=
+  selectJoinSpin_hangs n jc later h
+
+open XmppModel.MucHandover in
+-- two callers gave up, the third one listens: three turns
+example : selectJoin 4 (some ⟨true, false⟩) [⟨true, false⟩, ⟨true, true⟩] = some (.handed, none) := by decide
+open XmppModel.MucHandover in
+example : selectJoin 2 (some ⟨true, false⟩) [⟨true, false⟩, ⟨true, true⟩] = none := by decide
+open XmppModel.MucHandover in
+example : selectJoin 2 (some ⟨false, true⟩) [] = some (.forward, some ⟨false, true⟩) := by decide
 
 end XmppModel.Props.C09
